@@ -712,8 +712,8 @@ impl SubRule {
                     match (input[z], input[input.len()-1-z]) {
                         (MatchElement::Segment(li, _), MatchElement::Segment(ri, _)) => {
                             // FIXME: If we swap syllables or boundaries then do this, these SegPos may not be correct
-                            let sl = res_word.get_seg_at(li).unwrap();
-                            let sr = res_word.get_seg_at(ri).unwrap();
+                            // an earlier pair that moved a segment across a boundary can leave nothing at these positions: such a pair is left alone
+                            let (Some(sl), Some(sr)) = (res_word.get_seg_at(li), res_word.get_seg_at(ri)) else { continue };
                             let tmp = sl;
                             res_word.syllables[li.syll_index].segments[li.seg_index] = sr;
                             res_word.syllables[ri.syll_index].segments[ri.seg_index] = tmp;
@@ -724,6 +724,7 @@ impl SubRule {
                         (MatchElement::SyllBound(..), MatchElement::SyllBound(..)) => {/* Do nothing */},
                         (MatchElement::Segment(si, _), MatchElement::SyllBound(bi, _)) => {
                             // FIXME(girv): this won't work for rules with `...`, it may be necessary to disallow `$` in `...` rules                            
+                            if !res_word.in_bounds(si) { continue; }
                             let seg = res_word.syllables[si.syll_index].segments[si.seg_index];
                             if bi < res_word.syllables.len() {
                                 res_word.syllables[bi].segments.push_front(seg);
@@ -740,6 +741,7 @@ impl SubRule {
                         },
                         (MatchElement::SyllBound(bi, _), MatchElement::Segment(si, _)) => {
                             // FIXME(girv): this won't work for rules with `...`, it may be necessary to disallow `$` in `...` rules
+                            if !res_word.in_bounds(si) || bi > res_word.syllables.len() { continue; }
                             let seg = res_word.syllables[si.syll_index].segments[si.seg_index];
                             if bi > 0 {
                                 res_word.syllables[bi-1].segments.push_back(seg);
